@@ -78,8 +78,8 @@ func checkC01(c *Ctx, r *Report) {
 		}
 
 		// C01.c same path rule + verb
-		checkPathRule(c, r, e.Ver, set)
-		checkPathItemOwnership(c, r, e.Ver, e.Pkg, set)
+		checkPathRule(c, r, "C01.c", e.Ver, set)
+		checkPathItemOwnership(c, r, "C01.b", e.Ver, e.Pkg, set)
 
 		// C01.d operationId / tag / deprecation / responses
 		co := e.Pkg + ".createOperation"
@@ -228,7 +228,7 @@ func checkC01(c *Ctx, r *Report) {
 // only inside setNewRouteOperation, and the lookup and the insertion use the same
 // container (the document's path map), so operations of different controllers that
 // normalise to the same path are merged, never overwritten.
-func checkPathItemOwnership(c *Ctx, r *Report, ver, pkgRel, setFn string) {
+func checkPathItemOwnership(c *Ctx, r *Report, clause, ver, pkgRel, setFn string) {
 	w := c.W
 	var sites []string
 	viol := ""
@@ -318,7 +318,7 @@ func checkPathItemOwnership(c *Ctx, r *Report, ver, pkgRel, setFn string) {
 			}
 		}
 	}
-	o := r.add("C01.b", "whowrites", setFn+":path-item-ownership", ver+": the document's path items are looked up and written only in setNewRouteOperation, on the document's own map", []string{setFn}, sites, viol)
+	o := r.add(clause, "whowrites", setFn+":path-item-ownership", ver+": the document's path items are looked up and written only in setNewRouteOperation, on the document's own map", []string{setFn}, sites, viol)
 	o.NonTrivial = true
 }
 
@@ -334,8 +334,8 @@ func hasConst(a *sliceAtoms, c string) bool {
 // checkPathRule: routePath = RemoveDuplicateSlash(def.RestMetadata.Path + route.RestMetadata.Path)
 // (controller operand first), used as the key of lookups and insertion; verb operand is
 // route.HttpVerb.
-func checkPathRule(c *Ctx, r *Report, ver, setFn string) {
-	fi := need(c, r, "C01.c", setFn)
+func checkPathRule(c *Ctx, r *Report, clause, ver, setFn string) {
+	fi := need(c, r, clause, setFn)
 	if fi == nil {
 		return
 	}
@@ -391,7 +391,7 @@ func checkPathRule(c *Ctx, r *Report, ver, setFn string) {
 	if nKeyed < 2 {
 		viol = fmt.Sprintf("expected >= 2 path-keyed calls (lookup + insert) in %s, found %d", setFn, nKeyed)
 	}
-	r.add("C01.c", "fieldflow", setFn+":path-key", ver+": path key = RemoveDuplicateSlash(def.RestMetadata.Path + route.RestMetadata.Path), used for lookup and insertion", []string{setFn, "common.RemoveDuplicateSlash"}, sites, viol)
+	r.add(clause, "fieldflow", setFn+":path-key", ver+": path key = RemoveDuplicateSlash(def.RestMetadata.Path + route.RestMetadata.Path), used for lookup and insertion", []string{setFn, "common.RemoveDuplicateSlash"}, sites, viol)
 
 	// verb operand
 	viol = ""
@@ -451,7 +451,7 @@ func checkPathRule(c *Ctx, r *Report, ver, setFn string) {
 			}
 		}
 	}
-	r.add("C01.c", "fieldflow", setFn+":verb", ver+": the operation is stored under route.HttpVerb", []string{setFn}, sites, viol)
+	r.add(clause, "fieldflow", setFn+":verb", ver+": the operation is stored under route.HttpVerb", []string{setFn}, sites, viol)
 }
 
 // checkRouteAnnotationArg: GetFirstValueOrEmpty is called with GleeceAnnotationRoute.
